@@ -16,6 +16,7 @@ DEVIATIONS = {
         "pandas.nan_power",
         "pandas.cumulative_null_rows",
         "pandas.merge_matches_null_keys",
+        "pandas.cumcount_is_row_position",
     ],
     "sqlite": ["sqlite.order_nulls_first", "sqlite.full_join_emulation"],
     "polars": [],
